@@ -62,6 +62,18 @@ type concWorld struct {
 	handOff func(*fox.Txn)
 	// stale (C06): read-only transactions opened before the last commits of the setup; each is used by one reader
 	stale []*fox.Txn
+	// logger (C05): the built-in Logger middleware is installed; the scheduler run goes through runSched
+	logger bool
+}
+
+// runSched runs the scheduler; with the built-in Logger installed, what it writes to standard output/error during the
+// run is diverted to a scratch file.
+func (cw *concWorld) runSched(s *sim.Sched) (out sim.Outcome) {
+	if !cw.logger {
+		return s.Run()
+	}
+	_, _ = world.CaptureStderr(func() { out = s.Run() })
+	return out
 }
 
 // ballast routes live under /~, which no key and no probe reaches; they only change the shape (depth) of the tree.
@@ -80,8 +92,14 @@ var keyFamilies = [][]string{
 	{"/i/*{w}/r/{id}", "/i/*{w}/r", "/i/a/r/b", "/i/{p}", "/i/a", "i.b/*{w}/r/{id}"}, // infix catch-alls followed by a parameter: lookups below them run on a second pooled context
 }
 
-func buildConcWorld(src sim.Source, res *Result, tsMode int) *concWorld {
+func buildConcWorld(src sim.Source, res *Result, tsMode int, loggerDraw ...bool) *concWorld {
 	cw := &concWorld{}
+	if len(loggerDraw) > 0 && loggerDraw[0] && src.Intn("builtinlogger", 8) == 7 {
+		// (C05) the Logger middleware with fox's built-in log handler in front of every handler: what that handler keeps
+		// between records is shared by all requests of the process; the run's output on fds 1/2 is diverted (runSched)
+		cw.logger = true
+		res.inc("runs_with_builtin_logger_middleware")
+	}
 	cw.cfg = world.Cfg{NoMethod: sim.Bool(src, "405"), AutoOptions: sim.Bool(src, "autoopt"), GlobalTS: tsMode,
 		CacheSize: sim.Pick(src, "cache", []int{0, 1, 2, 3, 8})}
 	fam := keyFamilies[src.Intn("family", len(keyFamilies))]
@@ -146,7 +164,11 @@ func buildConcWorld(src sim.Source, res *Result, tsMode int) *concWorld {
 			cw.table[pi][m].Kind = -9
 		}
 	}
-	w, err := world.Build(cw.cfg)
+	var extra []fox.GlobalOption
+	if cw.logger {
+		extra = append(extra, fox.WithMiddleware(fox.Logger()))
+	}
+	w, err := world.Build(cw.cfg, extra...)
 	if err != nil {
 		res.Trouble = "build: " + err.Error()
 		return nil
